@@ -23,9 +23,10 @@ PROPS = {
     ),
     'C05': dict(
         title='Functions, scopes and pronouns',
-        verus=['env', 'call', 'exec_flow', 'exec_glue'], kani=[],
-        technique=V + ': environment.rs scope stack / innermost-first lookup / pronoun referent against a Seq<Map> view '
-                      '(SymTable abstract), the call protocol of ProduceVal::visit_function_call (arity before arguments, arguments left to '
+        verus=['env', 'sym_table', 'call', 'exec_flow', 'exec_glue'], kani=[],
+        technique=V + ': environment.rs scope stack / innermost-first lookup (read and write path, only the entry hit can change) / '
+                      'creation in the innermost scope / pronoun referent against a Seq<Map> view; sym_table.rs: one map per kind of name, '
+                      'case-folded key on every path (lookup, mutable lookup, insertion), kind errors, no overwrite; the call protocol of ProduceVal::visit_function_call (arity before arguments, arguments left to '
                       'right once each, by-value binding, fresh executor, pop, first return value), scope push/pop per loop '
                       'iteration and branch in exec_stmt.rs',
     ),
@@ -104,7 +105,7 @@ PROPS = {
     'C09': dict(
         title='Running any parseable program never crashes the interpreter',
         verus=['val_ops', 'val_arrays', 'val_mut', 'fold', 'produce', 'exec_flow', 'exec_glue', 'exec_io', 'env', 'call', 'folder',
-               'linter', 'boring', 'visit_runner', 'poetic'],
+               'linter', 'boring', 'visit_runner', 'poetic', 'sym_table'],
         kani=['c09_'],
         panic_site_files=['src/exec/write_val.rs', 'src/exec/val.rs', 'src/exec/produce_val.rs', 'src/exec/exec_stmt.rs',
                           'src/exec/sym_table.rs', 'src/exec/environment.rs', 'src/frontend/ast.rs', 'src/exec/display.rs',
